@@ -336,6 +336,19 @@ func (e *Engine) loadContractFile(path string, pkg *types.Package) error {
 			lastClause = si.Clause
 			pendingPred, cur, curMon = nil, nil, nil
 			continue
+		case kw == "conformance":
+			// conformance Iface1, Iface2: the contracts of in-repo implementations of these
+			// interfaces are checked to refine the contracts on the interface methods
+			if e.conformIfaces == nil {
+				e.conformIfaces = map[string]bool{}
+			}
+			for _, f := range splitTop(rest, ',') {
+				if f = strings.TrimSpace(f); f != "" {
+					e.conformIfaces[pkg.Path()+"."+f] = true
+				}
+			}
+			pendingPred, cur, lastClause = nil, nil, nil
+			continue
 		case kw == "lockclass":
 			// lockclass Type.mutexPath nonblocking: every critical section of this mutex must be non-blocking
 			if len(fields) != 3 || fields[2] != "nonblocking" {
